@@ -3,7 +3,7 @@
                              store  <path> <type> <value>          -> val N | range | other     (Mech: mech_store)
                              update <path> <type> <old> <delta>    -> val N | range | other     (Mech: mech_elem1_update)
                              spec   <type> <value>                 -> val N | range | other     (Spec: Lang.Sem.coerce)
-                           path := decl|assign|compound|arg|global-scalar|static|incdec-var|incdec-elem1|return|elem1|
+                           path := decl|assign|compound|arg|global-scalar|static|incdec-var|incdec-elem1|return|return-from-elemN|elem1|
                                    elem1-compound|elemN|lit1|litN|global-arr|assign-from-elemN
                            type := tiny|short|int|long|char|bool|utiny|ushort|uint|ulong|uchar
    Whole programs are run by bin/lang_model (ocaml/lang_driver.ml). *)
@@ -36,6 +36,7 @@ let ty_of s =
 let path_of = function
   | "decl" -> PDecl | "assign" -> PAssign | "compound" -> PCompound | "arg" -> PArg | "global-scalar" -> PGlobalScalar
   | "static" -> PStatic | "incdec-var" -> PIncDecVar | "incdec-elem1" -> PIncDecElem1 | "return" -> PReturn
+  | "return-from-elemN" -> PReturnElemN
   | "elem1" -> PElem1 | "elem1-compound" -> PElem1Compound | "elemN" -> PElemN | "lit1" -> PLit1 | "litN" -> PLitN
   | "global-arr" -> PGlobalArr | "assign-from-elemN" -> PAssignFromElemN
   | s -> failwith ("path " ^ s)
